@@ -3,6 +3,8 @@ import Driver.Util
 import SpyneModel.XmlSpec
 import SpyneModel.Soap
 import SpyneModel.Client
+import SpyneModel.XmlAttr
+import SpyneModel.XmlAttrSpec
 import SpyneModel.Generated.Facts08
 import SpyneModel.Generated.Facts01
 open Lean SpyneModel SpyneModel.Xml Driver
@@ -13,6 +15,7 @@ def F := SpyneModel.Generated.facts08
 def X := SpyneModel.Generated.factsXml
 def S := SpyneModel.Generated.factsSoap
 def CF := SpyneModel.Generated.factsClient
+def AF := SpyneModel.Generated.factsAttr
 
 def getObj (j : Json) (k : String) : Json :=
   match j.getObjVal? k with | .ok v => v | .error _ => Json.null
@@ -86,6 +89,40 @@ partial def tyOf (j : Json) : Ty :=
       (occOf (getObj j "o"))
   | "arr" => .arr (strText j "member") (tyOf (getObj j "elem")) (occOf (getObj j "o"))
   | _ => .prim .boolean {}
+
+def kindOfM (j : Json) : MKind :=
+  match j with
+  | .str "attribute" => .attribute
+  | .str "data" => .data
+  | _ => .element
+
+partial def tyAOf (j : Json) : TyA :=
+  match getStr j "k" with
+  | "prim" => .prim (primOf (getObj j "p")) (occOf (getObj j "o"))
+  | "obj" =>
+    .obj (strText j "name") (strText j "ns")
+      (match j.getObjVal? "base" with | .ok (.str s) => some s.toList | _ => none)
+      ((getArr j "fields").toList.map (fun f =>
+        match f with
+        | .arr #[.str k, t] => (k.toList, kindOfM (getObj t "mk"), tyAOf t)
+        | _ => ([], MKind.element, .prim .boolean {})))
+      (occOf (getObj j "o"))
+  | "arr" => .arr (strText j "member") (tyAOf (getObj j "elem")) (occOf (getObj j "o"))
+  | _ => .prim .boolean {}
+
+def ifaceAOf (j : Json) : IfaceA :=
+  { classes := (getArr j "classes").toList.map (fun c =>
+      { name := strText c "name", ns := strText c "ns",
+        base := (match c.getObjVal? "base" with | .ok (.str s) => some s.toList | _ => none),
+        fields := (getArr c "fields").toList.map (fun f =>
+          match f with
+          | .arr #[.str k, t] => (k.toList, kindOfM (getObj t "mk"), tyAOf t)
+          | _ => ([], MKind.element, .prim .boolean {})) }),
+    others := (getArr j "others").toList.map (fun o =>
+      match o with
+      | .arr #[.str k, t] => (k.toList, tyAOf t)
+      | _ => ([], .prim .boolean {})),
+    tns := strText j "tns" }
 
 def natAt (a : Array Json) (i : Nat) : Nat := match a[i]? with | some j => j.getNat?.toOption.getD 0 | none => 0
 
@@ -237,6 +274,14 @@ def step (j : Json) : Json :=
   | "xml.encode" =>
     Json.mkObj [("ok", Json.arr ((encode F cfg I (strText j "ns") (strText j "name") (tyOf (getObj j "ty"))
       (valOf (getObj j "val"))).map nodeJson).toArray)]
+  | "xmla.encode" =>
+    Json.mkObj [("ok", Json.arr ((encodeA F (strText (getObj j "iface") "tns") (strText j "ns") (strText j "name")
+      (tyAOf (getObj j "ty")) (valOf (getObj j "val"))).map nodeJson).toArray)]
+  | "xmla.decode" =>
+    outJson valJson (decodeA F X AF cfg (ifaceAOf (getObj j "iface")) (tyAOf (getObj j "ty")) (nodeOf (getObj j "doc")))
+  | "okA" => Json.mkObj [("ok", Json.bool (okOneA (getBool j "strict") (tyAOf (getObj j "ty")) (valOf (getObj j "val"))))]
+  | "normA" => Json.mkObj [("ok", valJson (normOneA (tyAOf (getObj j "ty")) (valOf (getObj j "val"))))]
+  | "wfA" => Json.mkObj [("ok", Json.bool (tyWfA (tyAOf (getObj j "ty"))))]
   | "xml.encodeStream" =>
     Json.mkObj [("ok", Json.arr ((encodeStream F X cfg I (strText j "ns") (strText j "name") (tyOf (getObj j "ty"))
       (valOf (getObj j "val"))).map nodeJson).toArray)]
